@@ -169,6 +169,7 @@ def base_env():
 def make_world(scen, oracles=(), fault_plan=None):
     """Fresh world for one execution of `scen` (fresh shared directory, fresh oracles)."""
     base = base_dir()
+    boot.reset_module_state()
     shutil.rmtree(base, ignore_errors=True)
     os.makedirs(base + "/in")
     os.makedirs(base + "/scratch")
@@ -384,6 +385,8 @@ REP = {
     "twocomp": [[], [0], [], [2]],
     "chain4": [[], [0], [1], [2]],
     "wide5": [[], [], [0], [1], [2, 3]],
+    # queue stress: L long, A fails, B1/B2 (blocked by A) and C (blocked by B1) flagged, X/Y ordinary
+    "cancelfan7": [[], [], [1], [1], [2], [], []],
     "indep3": [[], [], []],
     "indep4": [[], [], [], []],
 }
